@@ -224,4 +224,32 @@ def CellCall.covered (c : CellCall α) (p : Pattern) : Bool :=
 def assembleVec [Add α] [Mul α] [Zero α] (n : Nat) (calls : List (α × List Nat × (Nat → α))) : Array α :=
   calls.foldl (fun d (alpha, map, loc) => vecScatterAxpy d loc map alpha) (Array.replicate n 0)
 
+/-! ### sequences of assembly requests in one process -/
+
+/-- one assembler call: the (formatted) matrix pattern and what the cell loop scatters -/
+structure Request (α : Type) where
+  p : Pattern
+  calls : List (CellCall α)
+
+/-- the `_col_ptr` array of a new scatter object is `new IT_[cols]` without initialisation: it may be the block the
+previous call freed, i.e. hold whatever the previous call left there (`leftover`), cut or padded to the new size -/
+def fitColPtr (n : Nat) (leftover : Array (Option Nat)) : Array (Option Nat) :=
+  ((List.range n).map fun i => leftover.getD i none).toArray
+
+/-- the assembler call as it runs after earlier calls: everything is rebuilt from the request's arguments except the
+uninitialised scratch memory -/
+def assembleAfter [Add α] [Mul α] [Zero α] (leftover : Array (Option Nat)) (r : Request α) : Option (ScatterSt α) :=
+  assembleFrom r.p r.calls ⟨fitColPtr r.p.cols leftover, Array.replicate r.p.colIdx.length 0⟩
+
+/-- a sequence of requests served by one process; the state that survives a call is the freed scratch array -/
+def assembleSeq [Add α] [Mul α] [Zero α] : Array (Option Nat) → List (Request α) → List (Option (Array α))
+  | _, [] => []
+  | lo, r :: t =>
+    match assembleAfter lo r with
+    | none => none :: assembleSeq lo t
+    | some st => some st.data :: assembleSeq st.colPtr t
+
+/-- every call of every request is covered by the request's pattern -/
+def Request.covered (r : Request α) : Bool := r.calls.all fun c => c.covered r.p
+
 end FeatModel.Asm
